@@ -95,6 +95,21 @@ class MarkovCheck(object):
                     cc.update({'kind': 'e6', 'sim': sim, 'mode': mode, 'T': r.choice([0.4, 0.8, 1.5]) * (2 if mode == 'stateT2' else 1), 'runs': runs,
                                'full': (k % 2 == 0), 'seed': cs + (1 if sim == self.FAST else 0), 'ntests': n_cfg * 4})
                     cases.append(cc)
+        # --- rescale: black-box time-rescaling / event-type martingale tests on larger random graphs (both simulators)
+        nres = 24 if q else 96
+        for k in range(nres):
+            cs = case_seed(seed, self.PID + 'rescale', k)
+            r = random.Random(cs)
+            desc = gen.random_graph(r, 10, 30, kinds=['gnp', 'gnp_sparse', 'regular', 'config', 'tree', 'grid'])
+            desc['labels'] = r.choice(gen.LABEL_SCHEMES)
+            c = simcase.make_markov_case(r, desc, rates=r.choice([(1.0, 1.0), (0.5, 1.0), (2.0, 0.7), (0.8, 0.2)]), with_R0=(self.MODEL == 'SIR'), tmins=(0, -3))
+            g = c['graph']
+            for kk in ('ew', 'nw'):      # positive weights only: zero-rate classes are covered by e2/e3
+                if g.get(kk):
+                    g[kk] = {a: [w if w > 0 else 0.7 for w in ws] for a, ws in g[kk].items()}
+            c.update({'kind': 'rescale', 'sim': (self.GILL, self.FAST)[k % 2], 'runs': 150 if q else 2500, 'seed': cs, 'ntests': 2 * nres,
+                      'tmax': 'inf' if self.MODEL == 'SIR' else c['tmin'] + r.choice([1.5, 3.0])})
+            cases.append(c)
         return cases
 
 
@@ -358,6 +373,96 @@ class MarkovCheck(object):
                              'chi2': g['stat'], 'dof': g['dof'], 'p': g['p'], 'cells': g['cells']}
 
 
+    def run_rescale(self, case, res):
+        import EoN
+        G, lab, tw, rw, I0, R0 = simcase.build(case)
+        nodes = list(G)
+        ew = (lambda u, v: G.adj[u][v][tw]) if tw else (lambda u, v: 1.0)
+        nw = (lambda u: G.nodes[u][rw]) if rw else (lambda u: 1.0)
+        tau, gamma = case['tau'], case['gamma']
+        tmin, tmax = case['tmin'], self._tmax(case)
+        f = getattr(EoN, case['sim'])
+        kw = dict(initial_infecteds=list(I0), tmin=tmin, tmax=tmax, transmission_weight=tw, recovery_weight=rw, return_full_data=True)
+        if self.MODEL == 'SIR':
+            kw['initial_recovereds'] = list(R0)
+        us = []
+        dev, var = 0.0, 0.0
+        nev = 0
+        rr = random.Random(case['seed'] + 3)
+        simcase.seed_all(case['seed'])
+        try:
+            for _ in range(case['runs']):
+                sim = f(G, tau, gamma, **kw)
+                ev = markov.history_events(sim, nodes, tmin)
+                status = {u: 'S' for u in nodes}
+                for u in I0:
+                    status[u] = 'I'
+                for u in R0:
+                    status[u] = 'R'
+                # incremental rates
+                rec_rate = sum(gamma * nw(u) for u in I0)
+                inf_rate = sum(tau * ew(u, v) for u in I0 for v in G.neighbors(u) if status[v] == 'S')
+                t = tmin
+                maxlam = rec_rate + inf_rate
+                for (et, v, old, new) in ev:
+                    lam = rec_rate + inf_rate
+                    if lam <= 0:
+                        viol(res, '%s|%s|event_after_total_rate_zero' % (case['sim'], case['wm']), {'t': et})
+                        return
+                    us.append(1 - math.exp(-lam * (et - t)))
+                    p_inf = inf_rate / lam
+                    is_inf = 1.0 if new == 'I' else 0.0
+                    dev += is_inf - p_inf
+                    var += p_inf * (1 - p_inf)
+                    nev += 1
+                    t = et
+                    # update
+                    if new == 'I':
+                        status[v] = 'I'
+                        rec_rate += gamma * nw(v)
+                        for x in G.neighbors(v):
+                            if status[x] == 'S':
+                                inf_rate += tau * ew(v, x)
+                            elif status[x] == 'I' and x != v:
+                                inf_rate -= tau * ew(x, v)
+                    else:
+                        status[v] = new
+                        rec_rate -= gamma * nw(v)
+                        for x in G.neighbors(v):
+                            if status[x] == 'S':
+                                inf_rate -= tau * ew(v, x)
+                            elif status[x] == 'I' and new == 'S':
+                                inf_rate += tau * ew(x, v)
+                    maxlam = max(maxlam, lam)
+                    if abs(rec_rate) < 1e-9 * maxlam:     # the harness's own running sums carry rounding residue
+                        rec_rate = 0.0
+                    if abs(inf_rate) < 1e-9 * maxlam:
+                        inf_rate = 0.0
+                lam = rec_rate + inf_rate
+                if lam > 0 and tmax < float('inf'):
+                    # censored last interval: randomised probability integral transform of min(Exp, c)
+                    c0 = 1 - math.exp(-lam * (tmax - t))
+                    us.append(c0 + (1 - c0) * rr.random())
+                elif lam > 0 and tmax == float('inf'):
+                    viol(res, '%s|%s|stopped_although_total_rate_positive' % (case['sim'], case['wm']), {'t': t, 'rate': lam})
+                    return
+        except Exception as e:
+            viol(res, '%s|%s|bulk|exception:%s' % (case['sim'], case['wm'], simcase.exc_key(e)), {'err': repr(e)})
+            return
+        alpha = stats.ALPHA_RUN / max(1, case['ntests'])
+        ks = stats.ks_uniform(us)
+        zt = stats.ztest(dev, var)
+        bump(res, 'rescale_tests', 2)
+        bump(res, 'rescale_intervals', len(us))
+        setmax(res, 'rescale_min_neglog10_p', -math.log10(max(min(ks['p'], zt['p']), 1e-300)))
+        if ks['p'] < alpha:
+            viol(res, '%s|%s|waiting_times_exponential_with_total_rate' % (case['sim'], case['wm']), {'ks': ks, 'graph': case['graph'], 'tau': tau, 'gamma': gamma})
+        if zt['p'] < alpha:
+            viol(res, '%s|%s|event_type_probability' % (case['sim'], case['wm']), {'z': zt, 'events': nev, 'graph': case['graph'], 'tau': tau, 'gamma': gamma})
+        if nev:
+            res['nontrivial'] = self._distinct(case, 'rescale:' + case['sim'])
+            res['sample'] = {'kind': 'rescale', 'sim': case['sim'], 'graph': case['graph'], 'runs': case['runs'], 'intervals': len(us), 'ks': ks, 'z': zt}
+
     def run_case(self, case):
         res = new_result()
         k = case['kind']
@@ -367,6 +472,8 @@ class MarkovCheck(object):
             self.run_e3(case, res)
         elif k == 'fast':
             self.run_fast(case, res)
+        elif k == 'rescale':
+            self.run_rescale(case, res)
         else:
             self.run_e6(case, res)
         return res
